@@ -10,13 +10,13 @@ import (
 )
 
 type ETy struct {
-	K    string // Int UInt8 Int64 Bool String Address opt arr
+	K    string // Int UInt8 Int64 Bool String Address opt arr ref
 	Elem *ETy
 }
 
 func (t *ETy) SX() string {
 	switch t.K {
-	case "opt", "arr":
+	case "opt", "arr", "ref":
 		return "(" + t.K + " " + t.Elem.SX() + ")"
 	}
 	return t.K
@@ -28,6 +28,8 @@ func (t *ETy) Src() string {
 		return t.Elem.Src() + "?"
 	case "arr":
 		return "[" + t.Elem.Src() + "]"
+	case "ref":
+		return "&" + t.Elem.Src()
 	}
 	return t.K
 }
@@ -91,12 +93,20 @@ func (v *EVal) Src() string {
 }
 
 type EExp struct {
-	K    string // lit param rfield tr
+	K    string // lit param rfield tr | cond chain coalesce force cast castq | src
 	V    *EVal
 	X, F int
 	ID   int
 	E    *EExp
 	TrFn string
+	// cond: T = static type, C ? A : B;  chain: Flag, E, TrFn = constructor function;
+	// coalesce: A ?? B;  force: E!;  cast: E as T;  castq: anyS(E) as? T
+	T       *ETy
+	C, A, B *EExp
+	Flag    bool
+	// src: an expression whose value the model takes as the literal V and whose source text is S
+	// (a reference variable: the payload of a reference is the exported referenced value)
+	S string
 }
 
 func (e *EExp) SX() string {
@@ -107,6 +117,20 @@ func (e *EExp) SX() string {
 		return "(param)"
 	case "rfield":
 		return fmt.Sprintf("(rfield %d %d)", e.X, e.F)
+	case "src":
+		return "(lit " + e.V.SX() + ")"
+	case "cond":
+		return "(cond " + e.T.SX() + " " + e.C.SX() + " " + e.A.SX() + " " + e.B.SX() + ")"
+	case "chain":
+		return fmt.Sprintf("(chain %v %s)", e.Flag, e.E.SX())
+	case "coalesce":
+		return "(coalesce " + e.A.SX() + " " + e.B.SX() + ")"
+	case "force":
+		return "(force " + e.E.SX() + ")"
+	case "cast":
+		return "(cast " + e.T.SX() + " " + e.E.SX() + ")"
+	case "castq":
+		return "(castq " + e.T.SX() + " " + e.E.SX() + ")"
 	}
 	return fmt.Sprintf("(tr %d %s)", e.ID, e.E.SX())
 }
@@ -119,6 +143,20 @@ func (e *EExp) Src() string {
 		return "p"
 	case "rfield":
 		return fmt.Sprintf("r%d.f%d", e.X, e.F)
+	case "src":
+		return e.S
+	case "cond":
+		return "(" + e.C.Src() + " ? " + e.A.Src() + " : " + e.B.Src() + ")"
+	case "chain":
+		return fmt.Sprintf("%s(%v, %s)?.n", e.TrFn, e.Flag, e.E.Src())
+	case "coalesce":
+		return "(" + e.A.Src() + " ?? " + e.B.Src() + ")"
+	case "force":
+		return "(" + e.E.Src() + ")!"
+	case "cast":
+		return "(" + e.E.Src() + " as " + e.T.Src() + ")"
+	case "castq":
+		return "(anyS(" + e.E.Src() + ") as? " + e.T.Src() + ")"
 	}
 	return fmt.Sprintf("%s(%d, %s)", e.TrFn, e.ID, e.E.Src())
 }
@@ -176,7 +214,16 @@ type EStmt struct {
 
 type EFun struct{ Pre, Body, Post []*EEmit }
 
+// ERefVar is a local of `main` holding a reference: `let x<i>: T = v; let rx<i> = &x<i> as &T`, or a
+// reference borrowed from storage after saving v.
+type ERefVar struct {
+	Ty      *ETy
+	V       *EVal
+	Storage bool
+}
+
 type EProgram struct {
+	Refs   []ERefVar
 	Events []EEventDecl
 	Ifaces []EIface
 	Res    []EResDecl
@@ -323,6 +370,15 @@ func (p *EProgram) Src() string {
 	b.WriteString("access(all) fun trI(_ id: Int, _ v: Int): Int { log(id); return v }\n")
 	b.WriteString("access(all) fun trS(_ id: Int, _ v: String): String { log(id); return v }\n")
 	b.WriteString("access(all) fun trB(_ id: Int, _ v: Bool): Bool { log(id); return v }\n")
+	if p.Forms["chain"] {
+		for _, q := range [][2]string{{"I", "Int"}, {"S", "String"}, {"B", "Bool"}} {
+			b.WriteString(fmt.Sprintf("access(all) struct S%s { access(all) let n: %s; view init(_ n: %s) { self.n = n } }\n", q[0], q[1], q[1]))
+			b.WriteString(fmt.Sprintf("access(all) view fun mk%s(_ present: Bool, _ v: %s): S%s? { if present { return S%s(v) }; return nil }\n", q[0], q[1], q[0], q[0]))
+		}
+	}
+	if p.Forms["castq"] {
+		b.WriteString("access(all) view fun anyS(_ v: AnyStruct): AnyStruct { return v }\n")
+	}
 	for i, it := range p.Ifaces {
 		b.WriteString(fmt.Sprintf("access(all) resource interface I%d%s {\n  access(all) var f0: Int\n", i, confSrc(it.Conforms)))
 		if it.HasEv {
@@ -409,6 +465,20 @@ func (p *EProgram) Src() string {
 		b.WriteString("}\n")
 	}
 	b.WriteString("access(all) fun main() {\n")
+	acctDeclared := false
+	for i, rv := range p.Refs {
+		if rv.Storage {
+			if !acctDeclared {
+				acctDeclared = true
+				b.WriteString("  let acct = getAuthAccount<auth(Storage) &Account>(0x01)\n")
+			}
+			b.WriteString(fmt.Sprintf("  acct.storage.save<%s>(%s, to: /storage/s%d)\n", rv.Ty.Src(), rv.V.Src(), i))
+			b.WriteString(fmt.Sprintf("  let rx%d = acct.storage.borrow<&%s>(from: /storage/s%d)!\n", i, rv.Ty.Src(), i))
+		} else {
+			b.WriteString(fmt.Sprintf("  let x%d: %s = %s\n", i, rv.Ty.Src(), rv.V.Src()))
+			b.WriteString(fmt.Sprintf("  let rx%d = &x%d as &%s\n", i, i, rv.Ty.Src()))
+		}
+	}
 	for _, s := range p.Main {
 		switch s.K {
 		case "emit":
@@ -439,11 +509,42 @@ type evGen struct {
 	id    int
 	live  map[int]int // var -> resource type
 	nextX int
+	// while the parameters of a top-level event are generated: reference types over the referent types
+	// of the program's reference variables, and doubly optional types
+	evParam  bool
+	allowRef bool
 }
 
 var evBaseTys = []string{"Int", "Int", "UInt8", "Int64", "Bool", "String", "Address"}
 
 func (g *evGen) ty(depth int, allowContainers bool) *ETy {
+	if g.evParam && g.allowRef && len(g.p.Refs) > 0 && depth == 2 && g.r.Chance(45) {
+		// &T, &T?, [&T], [&T?], [&T]? over the referent type of one of the reference variables
+		g.p.Forms["ref"] = true
+		t := &ETy{K: "ref", Elem: g.p.Refs[g.r.Intn(len(g.p.Refs))].Ty}
+		switch g.r.Intn(6) {
+		case 0:
+			return &ETy{K: "opt", Elem: t}
+		case 1:
+			return &ETy{K: "arr", Elem: t}
+		case 2:
+			return &ETy{K: "arr", Elem: &ETy{K: "opt", Elem: t}}
+		case 3:
+			return &ETy{K: "opt", Elem: &ETy{K: "arr", Elem: t}}
+		}
+		return t
+	}
+	if g.evParam && depth == 2 && g.r.Chance(25) {
+		// optional / doubly optional parameter over a type with self-typed literals: the targets of the
+		// conditional / chaining / coalescing / unwrapping / casting argument forms
+		t := &ETy{K: "opt", Elem: &ETy{K: xBase[g.r.Intn(len(xBase))]}}
+		g.p.Forms["opt"] = true
+		if g.r.Chance(45) {
+			g.p.Forms["opt2"] = true
+			t = &ETy{K: "opt", Elem: t}
+		}
+		return t
+	}
 	if depth > 0 && allowContainers && g.r.Chance(30) {
 		k := []string{"opt", "arr"}[g.r.Intn(2)]
 		el := g.ty(depth-1, k == "arr" || true)
@@ -475,7 +576,11 @@ func (g *evGen) val(t *ETy) *EVal {
 		if r.Chance(35) {
 			return &EVal{K: "nil"}
 		}
-		return &EVal{K: "some", V: g.val(t.Elem)}
+		v := g.val(t.Elem)
+		for t.Elem.K == "opt" && v.K == "nil" { // `some(nil)` has no literal of its own
+			v = g.val(t.Elem)
+		}
+		return &EVal{K: "some", V: v}
 	}
 	n := r.Intn(3)
 	if t.Elem.K == "opt" || t.Elem.K == "arr" {
@@ -532,6 +637,13 @@ func (g *evGen) exp(t *ETy, inFun bool) *EExp {
 
 // argument for a parameter of type t: mostly of type t, for optionals often the unboxed element type
 func (g *evGen) arg(t *ETy, inFun bool) *EExp {
+	if hasRef(t) {
+		v, src, _ := g.refArg(t)
+		return &EExp{K: "src", V: v, S: src}
+	}
+	if base, d := optDepth(t); xBaseSet[base] && g.r.Chance(60) {
+		return g.xarg(base, d, inFun)
+	}
 	if t.K == "opt" && t.Elem.K != "arr" && g.r.Chance(50) {
 		g.p.Forms["boxed-arg"] = true
 		return g.exp(t.Elem, inFun)
@@ -539,13 +651,214 @@ func (g *evGen) arg(t *ETy, inFun bool) *EExp {
 	return g.exp(t, inFun)
 }
 
+// ---- argument forms whose value is produced by one of several instructions (conditional, optional
+// chaining, nil-coalescing, force unwrap, casts): the transfer to the parameter type has to convert / box
+// whatever the taken path produced ----
+
+var xBase = []string{"Int", "String", "Bool"}
+var xBaseSet = map[string]bool{"Int": true, "String": true, "Bool": true}
+
+// optDepth: T -> (T, 0), T? -> (T, 1), T?? -> (T, 2); anything else -> ("", 0)
+func optDepth(t *ETy) (string, int) {
+	d := 0
+	for t.K == "opt" {
+		t = t.Elem
+		d++
+	}
+	if t.K == "arr" || t.K == "ref" {
+		return "", 0
+	}
+	return t.K, d
+}
+
+func optN(base string, d int) *ETy {
+	t := &ETy{K: base}
+	for ; d > 0; d-- {
+		t = &ETy{K: "opt", Elem: t}
+	}
+	return t
+}
+
+func nilLit() *EExp { return &EExp{K: "lit", V: &EVal{K: "nil"}} }
+
+// expression of the (syntactically) optional static type base?
+func (g *evGen) optSrc(base string, inFun bool) *EExp {
+	bt := &ETy{K: base}
+	switch g.r.Intn(4) {
+	case 0:
+		g.p.Forms["chain"] = true
+		return &EExp{K: "chain", Flag: g.r.Chance(70), E: g.exp(bt, inFun), TrFn: "mk" + base[:1]}
+	case 1:
+		g.p.Forms["cast"] = true
+		if g.r.Chance(30) {
+			return &EExp{K: "cast", T: optN(base, 1), E: nilLit()}
+		}
+		return &EExp{K: "cast", T: optN(base, 1), E: g.exp(bt, inFun)}
+	case 2:
+		g.p.Forms["castq"] = true
+		from := bt
+		if g.r.Chance(30) {
+			from = &ETy{K: xBase[g.r.Intn(len(xBase))]}
+		}
+		return &EExp{K: "castq", T: bt, E: g.exp(from, inFun)}
+	}
+	// a live resource's optional field, when there is one
+	e := g.exp(optN(base, 1), inFun)
+	if e.K == "rfield" {
+		return e
+	}
+	g.p.Forms["chain"] = true
+	return &EExp{K: "chain", Flag: g.r.Chance(70), E: g.exp(bt, inFun), TrFn: "mk" + base[:1]}
+}
+
+// expression of static type base with k <= d optional levels (k returned)
+func (g *evGen) xleaf(base string, d int, inFun bool) (*EExp, int) {
+	if d >= 1 && g.r.Chance(40) {
+		return g.optSrc(base, inFun), 1
+	}
+	if d >= 1 && g.r.Chance(15) {
+		g.p.Forms["cast"] = true
+		k := 1 + g.r.Intn(d)
+		return &EExp{K: "cast", T: optN(base, k), E: g.exp(&ETy{K: base}, inFun)}, k
+	}
+	return g.exp(&ETy{K: base}, inFun), 0
+}
+
+// argument for a parameter of type base with d optional levels
+func (g *evGen) xarg(base string, d int, inFun bool) *EExp {
+	bt := &ETy{K: base}
+	cond := func() *EExp { return g.exp(&ETy{K: "Bool"}, inFun) }
+	switch k := g.r.Intn(10); {
+	case k < 4 && d >= 1:
+		// conditional with the nil literal in one branch
+		a, ka := g.xleaf(base, d, inFun)
+		if ka == 0 {
+			ka = 1
+		}
+		if g.r.Bool() {
+			g.p.Forms["cond-nil-else"] = true
+			return &EExp{K: "cond", T: optN(base, ka), C: cond(), A: a, B: nilLit()}
+		}
+		g.p.Forms["cond-nil-then"] = true
+		return &EExp{K: "cond", T: optN(base, ka), C: cond(), A: nilLit(), B: a}
+	case k < 5:
+		g.p.Forms["cond-both"] = true
+		a, ka := g.xleaf(base, d, inFun)
+		b, kb := g.xleaf(base, d, inFun)
+		if kb > ka {
+			ka = kb
+		}
+		return &EExp{K: "cond", T: optN(base, ka), C: cond(), A: a, B: b}
+	case k < 7 && d >= 1:
+		return g.optSrc(base, inFun)
+	case k < 8:
+		g.p.Forms["coalesce"] = true
+		return &EExp{K: "coalesce", A: g.optSrc(base, inFun), B: g.exp(bt, inFun)}
+	case k < 9:
+		g.p.Forms["force"] = true
+		a := g.optSrc(base, inFun)
+		if (a.K == "chain" && !a.Flag) && g.r.Chance(85) { // mostly succeeding
+			a.Flag = true
+		}
+		return &EExp{K: "force", E: a}
+	}
+	g.p.Forms["cast"] = true
+	return &EExp{K: "cast", T: optN(base, g.r.Intn(d+1)), E: g.exp(bt, inFun)}
+}
+
+func hasRef(t *ETy) bool {
+	for t != nil {
+		if t.K == "ref" {
+			return true
+		}
+		t = t.Elem
+	}
+	return false
+}
+
+// argument of a reference-carrying type: the model's value (the exported referenced value), the
+// source text, and whether it is written as `nil`
+func (g *evGen) refArg(t *ETy) (*EVal, string, bool) {
+	switch t.K {
+	case "ref":
+		var cs []int
+		for i, rv := range g.p.Refs {
+			if rv.Ty.SX() == t.Elem.SX() {
+				cs = append(cs, i)
+			}
+		}
+		i := cs[g.r.Intn(len(cs))]
+		if g.p.Refs[i].Storage {
+			g.p.Forms["ref-storage"] = true
+		}
+		return g.p.Refs[i].V, fmt.Sprintf("rx%d", i), false
+	case "opt":
+		if g.r.Chance(20) {
+			return &EVal{K: "nil"}, "nil", true
+		}
+		v, s, _ := g.refArg(t.Elem)
+		return &EVal{K: "some", V: v}, s, false
+	}
+	n := 1 + g.r.Intn(3)
+	v := &EVal{K: "arr", ElTy: t.Elem}
+	parts := []string{}
+	allNil := true
+	for i := 0; i < n; i++ {
+		ev, es, isNil := g.refArg(t.Elem)
+		if i == n-1 && allNil && isNil { // `[nil]` alone gives the checker nothing to infer from
+			for isNil {
+				ev, es, isNil = g.refArg(t.Elem)
+			}
+		}
+		allNil = allNil && isNil
+		v.Vs = append(v.Vs, ev)
+		parts = append(parts, es)
+	}
+	src := "[" + strings.Join(parts, ", ") + "]"
+	if t.Elem.K == "opt" {
+		// The checker gives an argument no expected type when the parameter type contains a reference
+		// (check_invocation_expression.go: "require an explicit type annotation"): unannotated, `[r, r]` is a
+		// `[&T]` value, accepted for `[&T?]` by array covariance with its elements left unboxed.
+		src = "(" + src + " as " + t.Src() + ")"
+	}
+	return v, src, false
+}
+
 func (g *evGen) emit(inFun bool) *EEmit {
 	ev := g.r.Intn(len(g.p.Events))
+	if inFun { // the reference variables are locals of main
+		for tries := 0; tries < 8 && g.evHasRef(ev); tries++ {
+			ev = g.r.Intn(len(g.p.Events))
+		}
+		if g.evHasRef(ev) {
+			ev = 0
+		}
+	}
 	e := &EEmit{Ev: ev}
 	for _, q := range g.p.Events[ev].Params {
 		e.Args = append(e.Args, g.arg(q.Ty, inFun))
 	}
+	for i := range g.p.Refs { // the same reference value more than once in one event
+		n := 0
+		for _, a := range e.Args {
+			if a.K == "src" {
+				n += strings.Count(a.S+",", fmt.Sprintf("rx%d,", i)) + strings.Count(a.S, fmt.Sprintf("rx%d]", i))
+			}
+		}
+		if n >= 2 {
+			g.p.Forms["ref-shared"] = true
+		}
+	}
 	return e
+}
+
+func (g *evGen) evHasRef(ev int) bool {
+	for _, q := range g.p.Events[ev].Params {
+		if hasRef(q.Ty) {
+			return true
+		}
+	}
+	return false
 }
 
 func (g *evGen) rexp(t int) *ERExp {
@@ -564,7 +877,27 @@ func (g *evGen) rexp(t int) *ERExp {
 func GenEvents(r *hx.Rng) *EProgram {
 	p := &EProgram{Forms: map[string]bool{}}
 	g := &evGen{r: r, p: p, live: map[int]int{}}
+	if r.Chance(35) {
+		for k := 1 + r.Intn(2); k > 0; k-- {
+			var t *ETy
+			switch r.Intn(5) {
+			case 0:
+				t = &ETy{K: "arr", Elem: &ETy{K: "Int"}}
+			case 1:
+				t = &ETy{K: "String"}
+			case 2:
+				t = &ETy{K: "arr", Elem: &ETy{K: "String"}}
+			default:
+				t = &ETy{K: "Int"}
+			}
+			rv := ERefVar{Ty: t, V: g.val(t), Storage: r.Chance(30)}
+			p.Refs = append(p.Refs, rv)
+		}
+	}
 	nEv := 1 + r.Intn(3)
+	if len(p.Refs) > 0 && nEv < 2 {
+		nEv = 2
+	}
 	names := []string{"a", "b", "c", "d", "e"}
 	for i := 0; i < nEv; i++ {
 		e := EEventDecl{ID: fmt.Sprintf("E%d", i)}
@@ -574,9 +907,14 @@ func GenEvents(r *hx.Rng) *EProgram {
 			j := r.Intn(k + 1)
 			perm[k], perm[j] = perm[j], perm[k]
 		}
+		g.evParam, g.allowRef = true, i > 0 // E0 stays free of references: functions emit it
+		if g.allowRef && len(p.Refs) > 0 && n < 2 {
+			n = 2 + r.Intn(3)
+		}
 		for j := 0; j < n; j++ {
 			e.Params = append(e.Params, EParam{Name: names[perm[j]], Ty: g.ty(2, true)})
 		}
+		g.evParam, g.allowRef = false, false
 		p.Events = append(p.Events, e)
 	}
 	nIf := 0
